@@ -87,6 +87,7 @@ def choices(tree: ber.Node) -> t.List[Choice]:
                     out.append((i, "junk", "ctx10"))
                 out.append((i, "junk", "app1-11"))
                 out.append((i, "junk", "many"))
+                out.append((i, "junk", "twins"))
                 if name == "LDAPMessage" and len(n.children or []) >= 3:
                     out.append((i, "junk", "before-controls-1"))
                     out.append((i, "junk", "before-controls-20"))
@@ -132,6 +133,9 @@ def render(tree: ber.Node, chosen: t.Sequence[Choice]) -> bytes:
                 n.children += [ber.Node(ber.APPLICATION, False, 1, b"q"), ber.Node(ber.PRIVATE, False, 11, b"r"), ber.Node(ber.UNIVERSAL, False, 10, b"\x05"), ber.Node(ber.APPLICATION, False, 3, b"")]
             elif opt == "many":
                 n.children += [ber.Node(ber.CONTEXT, False, 40 + k, bytes([k])) for k in range(20)]
+            elif opt == "twins":
+                # the same unknown element more than once (two with one tag are still two unknown elements)
+                n.children += [ber.Node(ber.CONTEXT, False, 27, b"t"), ber.Node(ber.CONTEXT, False, 27, b"t"), ber.Node(ber.PRIVATE, True, 12, None, []), ber.Node(ber.PRIVATE, True, 12, None, [])]
             elif opt in ("before-controls-1", "before-controls-20"):
                 extra = [ber.Node(ber.CONTEXT, False, 40 + k, bytes([k])) for k in range(1 if opt.endswith("-1") else 20)]
                 n.children[2:2] = extra
